@@ -9,14 +9,42 @@ META = {
  "technique": "TLA+ model checking (TLC) of the transcribed merge-iterator algorithm + trace validation of real iterations",
 }
 
-# Mutation testing (scratch worktrees of /repo, VERIF_REPO=<dir> bin/vcheck C09 quick), all compile and
-# keep `go test ./db19/index/...` green; results are listed in the agent report / below:
-#   M1 overiter.go minIter: on a tie the FIRST source decides (result only set when winIdx == i)   -> VIOLATION
-#   M2 overiter.go fastNext: `it.Key() < oi.secondMin` -> `<=` (fast path crosses a tied/deleted key) -> VIOLATION
-#   M3 overiter.go modPrev: after Seek `it.Key() >= oi.curKey` -> `>` (direction change off by one)  -> VIOLATION
-#   M4 overiter.go Next at eof: Read(prevKey, oi.curKey) instead of rng.End (gap at eof not covered)  -> VIOLATION
-#   M5 ixbuf.go Iterator.Prev from rewound: range check `<` -> `<=` on End                           -> see report
-#   (see the agent report for the exact patches and outcomes)
+# Findings on the pinned commit (see known-findings / fix commits in the agent report):
+#   F17 stale-iterator-after-commit: Overlay.UpdateWith changed the transaction's Overlay in place, OverIter
+#       only compares Overlay pointers -> an iterator used by the transaction after it wrote and continued
+#       afterwards (cursor) keeps the snapshot's layers and misses concurrently committed keys. Re-found by
+#       stale.ndjson (quick, every seed tried); TLC shows it with Overlay_dev_stale.cfg; fix: UpdateWith
+#       returns a new Overlay.
+#
+# Mutation testing (scratch worktrees of /repo at the fix commits, VERIF_REPO=<dir> VERIF_SKIP_MC=1 bin/vcheck C09 quick,
+# seed 1). "tests" = go test ./db19/index/ (+ ixbuf / btree when touched) on the mutant.
+#   M1  overiter.go minIter: on a tie the first (oldest) source decides            tests RED    check VIOLATION
+#   M2  overiter.go fastNext: Key() < secondMin -> <= (crosses a tied/deleted key) tests RED    check VIOLATION
+#   M3  overiter.go modPrev: after Seek Key() >= curKey -> > (direction change)    tests RED    check VIOLATION
+#   M4  overiter.go Next at eof reads (prevKey, prevKey) not (prevKey, rng.End)    tests RED    check VIOLATION
+#   M5  overiter.go maxIter: skip loop only retreats tombstone sources              tests RED    check VIOLATION
+#   M6  overiter.go canFast ignores Modified() of the mutable layer                tests RED    check VIOLATION
+#   M7  ixbuf.go Iterator.Next: key >= rng.End -> >                                tests RED    check VIOLATION
+#   M8  ixbuf.go skipAdvanceToMatch: suffix >= skipRng.End -> >                    tests RED    check VIOLATION
+#   M9  btree/iter.go Prev within: no checkRangeOrg                                tests RED    check VIOLATION
+#   M10 overlay.go Lookup: a tombstone in a layer does not end the search          tests green  check VIOLATION
+#   M11 overiter.go modNext: after Seek Key() <= curKey -> <                       tests RED    check VIOLATION
+#   M12 overiter.go Range() does not reset skipStart                               tests green  check VIOLATION
+#   M13 overiter.go SkipScan() not propagated to the existing source iterators     tests green  check VIOLATION
+#   M14 ixbuf.go skipSeek does not pre-set skipGroup                               tests green  check VIOLATION
+#       (missed by the first version of the driver; bursts of transaction writes and more overlay
+#        switching in skip-scan mode were added for it)
+#   M15 overiter.go fastPrev: Key() > secondMax -> >=                              tests RED    check VIOLATION
+#   M16 btree/iter.go skip-scan Seek accepts a smaller key                         tests green  check quiet: equivalent
+#       (seekAllRaw only lands below the key when no key >= exists; the fallback finds the same key)
+#   M17 overlay.go WithSaved keeps the base layer                                  tests green  check exit 2: the next
+#       real Save panics inside btree.MergeAndSave (not an iteration result; C16/C10 territory)
+#   M18 simpleiter.go SkipScan does not reset the state to rewound                 tests green  check VIOLATION
+#       (missed at first; range changes at eof and more SimpleIters were added)
+#   M19 overiter.go Prev at eof reads (prevKey, prevKey)                           tests RED    check VIOLATION
+# Observations that are NOT flagged (outside what OverIter relies on, see report): ixbuf skipSeek of a key
+# whose suffix is beyond the suffix range can stop before the key; backward skip-scan over the degenerate
+# prefix range ["", "") returns a key when the first prefix is empty.
 
 
 def run(ctx):
@@ -43,7 +71,7 @@ def run(ctx):
 def conformance(ctx):
     # 2. conformance: real overlays and iterators
     drv = ctx.go_build("overlay")
-    nscen, nops = (1500, 120) if ctx.thorough() else (160, 90)
+    nscen, nops = (1000, 110) if ctx.thorough() else (160, 90)
     rc, out, summ = ctx.driver(drv, [ctx.work, nscen, nops], timeout=1200)
     if rc != 0:
         raise vlib.Infra("overlay driver failed rc=%d:\n%s" % (rc, out[-3000:]))
